@@ -988,8 +988,146 @@ def plain_items(ctx, n):
                            'order, at time 1' % (items, 'FilterStore' if filt else 'Store', cap, got), family='plain-items')
 
 
+def withdrawn_requests(ctx, n):
+    """directed family (implementation only, expectations from the text): a process waiting for a request that has NOT been
+    granted yet inside `with resource.request() as req:` is interrupted and handles the Interrupt outside the block: the
+    request is withdrawn with the block (cancellation is one of the triggers of the text) - it is in no queue any more, the
+    next release serves the next user in line at once, and the resource never counts the withdrawn user"""
+    from usim.py import Environment
+    from usim.py.resources.resource import Resource
+    from usim.py.resources.container import Container
+    from usim.py.exceptions import Interrupt
+    rng = ctx.rng
+    for _ in range(n):
+        kind = rng.choice(['resource', 'container-get'])
+        hold, t_int = rng.choice([4, 6]), rng.choice([1, 2, 3])
+        case = {'withdrawn_request': kind, 'first_holds_until': hold, 'interrupted_at': t_int}
+        env = Environment()
+        log = []
+        if kind == 'resource':
+            res = Resource(env, capacity=1)
+
+            def first(env):
+                with res.request() as req:
+                    yield req
+                    yield env.timeout(hold)
+                log.append(('first out', env.now))
+
+            def second(env):
+                try:
+                    with res.request() as req:
+                        yield req
+                        log.append(('second got the resource', env.now))
+                        yield env.timeout(50)
+                except Interrupt:
+                    log.append(('second handled', env.now, len(res.queue), res.count))
+                yield env.timeout(100)
+
+            def third(env):
+                yield env.timeout(t_int + 0.5)
+                with res.request() as req:
+                    yield req
+                    log.append(('third in', env.now, res.count))
+                    yield env.timeout(1)
+            want = [('second handled', t_int, 0, 1), ('first out', hold), ('third in', hold, 1)]
+        else:
+            res = Container(env, capacity=10, init=0)
+
+            def first(env):
+                yield env.timeout(hold)
+                yield res.put(3)
+                log.append(('first out', env.now))
+
+            def second(env):
+                try:
+                    with res.get(3) as req:
+                        yield req
+                        log.append(('second got the resource', env.now))
+                except Interrupt:
+                    log.append(('second handled', env.now, len(res.get_queue), res.level))
+                yield env.timeout(100)
+
+            def third(env):
+                yield env.timeout(t_int + 0.5)
+                with res.get(3) as req:
+                    yield req
+                    log.append(('third in', env.now, res.level))
+            want = [('second handled', t_int, 0, 0), ('third in', hold, 0), ('first out', hold)]
+        procs = [env.process(first(env)), env.process(second(env)), env.process(third(env))]
+
+        def interrupter(env):
+            yield env.timeout(t_int)
+            procs[1].interrupt('give up')
+        env.process(interrupter(env))
+        try:
+            env.run(until=hold + 20)
+        except BaseException as e:   # noqa
+            ctx.fail(case, 'raised %r; logged %r' % (e, log), family='withdrawn-requests')
+            continue
+        ctx.count(case, nontrivial=True)
+        ctx.bump('family:withdrawn-requests')
+        if sorted(log, key=repr) != sorted(want, key=repr):
+            ctx.fail(case, 'observed %r, expected %r (the interrupted waiter is out of the queue, the third user is served at '
+                           'the release)' % (log, want), family='withdrawn-requests')
+
+
+def filter_store_bursts(ctx, n):
+    """directed family (implementation only): several getters pending on a FilterStore and several items arriving in one
+    time step: the getters are served in the order of their requests (each the first item it accepts), nobody is skipped"""
+    from usim.py import Environment
+    from usim.py.resources.store import FilterStore
+    rng = ctx.rng
+    for _ in range(n):
+        ng, ni = rng.choice([3, 4, 5]), rng.choice([2, 3])
+        case = {'filter_store_burst': dict(getters=ng, items=ni)}
+        env = Environment()
+        store = FilterStore(env, capacity=10)
+        got = []
+
+        def getter(env, k):
+            yield env.timeout(k * 0.1)
+            x = yield store.get(lambda it: True)
+            got.append((k, x, env.now))
+
+        style = rng.choice(['one after the other', 'without waiting in between', 'one process per item'])
+        case['filter_store_burst']['puts'] = style
+
+        def producer(env):
+            yield env.timeout(2)
+            if style == 'without waiting in between':
+                evs = [store.put('item%d' % i) for i in range(ni)]
+                yield env.all_of(evs)
+            else:
+                for i in range(ni):
+                    yield store.put('item%d' % i)
+
+        def single(env, i):
+            yield env.timeout(2)
+            yield store.put('item%d' % i)
+        for k in range(ng):
+            env.process(getter(env, k))
+        if style == 'one process per item':
+            for i in range(ni):
+                env.process(single(env, i))
+        else:
+            env.process(producer(env))
+        try:
+            env.run(until=10)
+        except BaseException as e:   # noqa
+            ctx.fail(case, 'raised %r; received %r' % (e, got), family='filter-store-bursts')
+            continue
+        ctx.count(case, nontrivial=True)
+        ctx.bump('family:filter-store-bursts')
+        want = [(k, 'item%d' % k, 2) for k in range(min(ng, ni))]
+        if sorted(got) != want:
+            ctx.fail(case, '%d getters pending on a FilterStore, %d items put in one time step: received %r (getter, item, time), '
+                           'expected %r' % (ng, ni, sorted(got), want), family='filter-store-bursts')
+
+
 def run(ctx):
     with_block_exceptions(ctx, ctx.n(40, 600))
+    withdrawn_requests(ctx, ctx.n(20, 200))
+    filter_store_bursts(ctx, ctx.n(10, 100))
     plain_items(ctx, ctx.n(40, 400))
     run_batch(ctx, make_cases(ctx, ctx.n(300, 10000)))
 
